@@ -171,9 +171,10 @@ REGISTRY = {
     'C19': {
         'modules': ['contracts.node'], 'level': 'proof',
         'level_text': 'PARTIAL: add_buffer/__process_packet absorb every byte string; firewalls: a refused event is never transmitted '
-                      '(send) nor dispatched (__process_packet_call), on every path; every event attribute the dispatching core reads is '
-                      'excluded from peer metadata (structural obligation recomputed from the ASTs on every run). Bounded stand-ins '
-                      '(labelled): JSON round trip, hostile packet grammar against a live loop.',
+                      '(send) nor dispatched (__process_packet_call), on every path; load_event/load_value are verified for EVERY value '
+                      'json.loads can return (dynamic JSON value model): only the declared exceptions escape, and no peer-chosen metadata '
+                      'key that the dispatching core reads (set recomputed from the ASTs on every run) is ever set on an event or value. '
+                      'Bounded stand-ins (labelled): JSON round trip, hostile packet grammar against a live loop.',
         'level_note': 'not decided: "executed exactly once on the peer and the result comes back" (two-party protocol over two loops); '
                       'JSON itself trusted; load_event/firewall/dump_event by their contracts.',
         'explanation': 'node protocol contracts discharged by z3 + AST obligations; serialisation and hostile grammar bounded',
